@@ -154,19 +154,19 @@ Definition is_opmark (e : ev) : bool :=
 Definition writer_part (t : trace) : trace := filter (fun e => negb (is_reader e)) t.
 Definition reader_part (t : trace) : trace := filter is_reader t.
 
-(** The reader issues all its statements inside one read transaction. *)
-Fixpoint all_rread (t : trace) : bool :=
-  match t with [] => true | RRead :: r => all_rread r | _ => false end.
-Definition one_bracket (rt : trace) : bool :=
-  match rt with
-  | RBegin :: r =>
-      match rev r with
-      | REnd :: m => all_rread m
-      | _ => false
-      end
-  | [] => true
+(** The reader issues all its statements inside one read transaction ([disciplined_reader]). *)
+Fixpoint reads_then_end (t : trace) : bool :=
+  match t with
+  | [REnd] => true
+  | RRead :: r => reads_then_end r
   | _ => false
   end.
+Definition one_bracket (rt : trace) : bool :=
+  match rt with
+  | RBegin :: RRead :: r => reads_then_end r
+  | _ => false
+  end.
+Definition disciplined_reader (t : trace) : bool := one_bracket (reader_part t).
 
 (** The concrete database used to evaluate observed traces: the log of committed writes. *)
 Definition log_apply (w : N) (l : list N) : list N := l ++ [w].
